@@ -23,8 +23,19 @@ Ranges     == {"default", "invalid", "exhausted"}
 Opens      == {"after", "before"}
 
 (* cors: the unprotected path enables CORS (its preflight handling must not open the protected one) *)
-Cases == [url : URLs, oauth : OAuths, placement : Placements, ptype : PTypes, lua : BOOLEAN, range : Ranges, open : Opens, cors : BOOLEAN,
-          pubauth : BOOLEAN]     \* the other path of the backend declares an auth-url of its own
+(* src: the annotations that declare the authentication sit on the Ingress or on the Service (both are documented places of
+   path scoped keys; the host only reads Ingress annotations).  oprefix: oauth-uri-prefix left alone or set to the root path.
+   elder: an older Ingress of the same host declares auth-external-placement itself (the host elects one placement). *)
+Srcs     == {"ingress", "service"}
+OPrefixs == {"default", "root"}
+Elders   == {"none", "backend", "frontend"}
+BaseCases == [url : URLs, oauth : OAuths, placement : Placements, ptype : PTypes, lua : BOOLEAN, range : Ranges, open : Opens, cors : BOOLEAN,
+              pubauth : BOOLEAN,     \* the other path of the backend declares an auth-url of its own
+              src : {"ingress"}, oprefix : {"default"}, elder : {"none"}]
+ExtraCases == [url : {"none", "svc_ok", "http_ok", "malformed"}, oauth : {"none", "valid_with_path"}, placement : Placements, ptype : {"prefix"},
+               lua : {TRUE}, range : {"default"}, open : {"after"}, cors : {FALSE}, pubauth : {FALSE},
+               src : Srcs, oprefix : OPrefixs, elder : Elders]
+Cases == BaseCases \cup ExtraCases
 
 SeqT(t) == [i \in 1..Len(t) |-> t[i]]
 
